@@ -163,10 +163,18 @@ func c06ApplyMut(r *c06Req, m c06Mut, l *c06Literal, p *c06Params) {
 		r.Body = m.A
 	case "chunk":
 		r.Chunked = !r.Chunked
-	case "tagflip", "tagupper":
+	case "tagflip", "tagupper", "tagcut", "tagext":
 		edit := func(tag string) string {
-			if m.Op == "tagupper" {
+			switch m.Op {
+			case "tagupper":
 				return strings.ToUpper(tag)
+			case "tagcut":
+				if m.N < len(tag) {
+					return tag[:m.N]
+				}
+				return tag
+			case "tagext":
+				return tag + m.A
 			}
 			return c06FlipHex(tag, m.N)
 		}
@@ -709,7 +717,16 @@ func c06AttachSig(r *vfRand, in *c06In, focus, forceQuery, adv bool) int {
 		mut(c06Mut{Op: "tagflip", N: r.Intn(64)})
 		return 10
 	case 19:
-		mut(c06Mut{Op: "tagupper"})
+		switch r.Intn(4) {
+		case 0:
+			mut(c06Mut{Op: "tagupper"})
+		case 1:
+			mut(c06Mut{Op: "tagcut", N: r.PickInt(0, 0, 1, 32, 63)})
+		case 2:
+			mut(c06Mut{Op: "tagext", A: r.PickStr("0", "00", " ", "a")})
+		default:
+			mut(c06Mut{Op: "tagflip", N: r.Intn(64)})
+		}
 		return 10
 	case 20: // unknown access key
 		pl.KeyID = "nokey"
